@@ -147,7 +147,7 @@ class Ctx:
             raise ToolError("TLC failed on %s/%s\n%s" % (module, cfg, out[-3000:]))
         counts = {}
         with open(dot) as f:
-            for m in re.finditer(r'-> -?\d+ \[label="(\w+)"', f.read()):
+            for m in re.finditer(r'-> -?\d+ \[label="(\w+)(?:\([^"]*\))?"', f.read()):
                 counts[m.group(1)] = counts.get(m.group(1), 0) + 1
         os.remove(dot)
         missing = [a for a in expected if counts.get(a, 0) == 0]
@@ -157,6 +157,16 @@ class Ctx:
                                      "actions": counts, "wall_s": round(dt, 2)})
         log("TLC %s/%s: actions on edges %s" % (module, cfg, counts))
         return counts
+
+    def tlc_expect_violation(self, module, cfg, what, timeout=600):
+        """Non-vacuity self-test: `cfg` is a deliberately weakened specification (e.g. fairness removed);
+        TLC must find the stated violation. Anything else is a tool error."""
+        rc, out, dt = self._tlc(module, cfg, [], 4, timeout, tag="neg")
+        if what not in out or "Error:" not in out:
+            raise ToolError("expected TLC to report '%s' for %s/%s (non-vacuity self-test) but it did not\n%s" % (what, module, cfg, out[-2500:]))
+        self.cov["tlc_runs"].append({"module": module, "cfg": cfg, "mode": "negative self-test (violation expected and found)",
+                                     "expected": what, "wall_s": round(dt, 2)})
+        log("TLC %s/%s: expected violation found (%s)" % (module, cfg, what))
 
     def tlc_gen(self, module, cfg, out_name, simulate=None, timeout=600, tagline="SCN", dedup=True, workers=1):
         """Let TLC print behaviours as JSON lines `<<"SCN", "<json>">>`; returns the scenario list.
